@@ -152,7 +152,7 @@ PROPS["C10"] = dict(
 
 PROPS["C18"] = dict(
     level="proof",
-    verus=["c18_gate", "c18_stringify"],
+    verus=["c18_gate", "c18_stringify", "c16_resources"],
     labels=["C18.", "C13.redirect_resource.", "C13.kind."],
     kani=[KaniSet("src/resources/mod.rs", "c18_perm.rs", [
         Harness("c18_perm_subset", "C18.perm.subset", "C", "all 256x256 pairs; loop over the 8 bit positions fully unwound"),
@@ -164,12 +164,13 @@ PROPS["C18"] = dict(
              "core::fmt: format!(\"{:04x}\", byte) is zero-padded lower-case hex (axiom for that literal only)",
              "Iterator::find over a slice returns an element of the slice (vf_iter shim)",
              "termination of recursive_dependencies on cyclic graphs is NOT proved (exec_allows_no_decreases_clause)",
-             "per-host merge of injections / exceptions in cosmetic_filter_cache.rs is not under contract"],
+             "per-host merge (unit c16_resources): entry().and_modify(|=).or_insert() and HashMap::remove(&str) are lifted (R6) with content-equality contracts; get_scriptlet_resources' iteration over the merged map is uninterpreted"],
     assumptions=["scriptlet argument lists stored in rules parse (established at rule parse time)"],
     level_text="Kani/CBMC proves the permission subset test over all 256x256 pairs; Verus proves that a scriptlet, and every dependency added to the page's list, is handed out only when every bit it requires "
                "was granted to the requesting list (for any dependency graph, any prior list contents), that only injectable kinds are injected, that a resource requiring any permission or of a "
-               "non-redirectable kind is never served as a redirect, and that the escaping core of stringify_arg writes, byte for byte, the JSON escape of the argument, each escape decoding back to its byte (all strings)",
-    level_note="argument-list parsing (parse_scriptlet_args) and the per-host merge are not under contract",
+               "non-redirectable kind is never served as a redirect, that the escaping core of stringify_arg writes, byte for byte, the JSON escape of the argument, each escape decoding back to its byte (all strings), "
+               "and that the per-host merge requests each scriptlet with the OR of the permissions of the lists that asked for it, removes exactly the identically-spelled exceptions, and everything under a blanket exception",
+    level_note="argument-list parsing (parse_scriptlet_args) is not under contract",
     design_ref="DESIGN.md section 4, C18",
 )
 
@@ -208,13 +209,21 @@ PROPS["C12"] = dict(
 
 PROPS["C16"] = dict(
     level="proof",
-    verus=["c16_labels"],
-    labels=["C16."],
+    verus=["c16_labels", "c16_resources"],
+    labels=["C16.", "C18.resources."],
     kani=[],
-    trusted=["memchr/memrchr (shims)", "seahash uninterpreted", "HostnameRuleDb storage, hostname_cosmetic_resources merge/prune, generichide lookup - NOT under contract"],
+    trusted=["memchr/memrchr (shims)", "seahash uninterpreted",
+             "HostnameRuleDb::store_rule / add_generic_filter (which bin a rule is stored in, negated locations, hidden generic rules), the generichide lookup in engine.rs / blocker.rs: NOT under contract",
+             "std HashSet / HashMap (vstd's model; String and &str keys compare by content), Vec iteration order",
+             "R5/R6 lifts in hostname_cosmetic_resources: iter().chain().collect() = concatenation, difference().cloned().collect() = set difference, into_iter().for_each(insert) = union, "
+             "entry().and_modify(|=).or_insert() = OR-merge under a content-equal key, HashMap::remove(&str) = removal of the content-equal key",
+             "ResourceStorage::get_scriptlet_resources (uninterpreted function of the injection map; its gate is unit c18_gate)",
+             "url_parser::get_host_domain returns a slice of the hostname on character boundaries"],
     assumptions=["the domain handed in is a suffix of the hostname (computed by url_parser)"],
-    level_text="Verus proves, for all strings, that the lookup hashes of a page host are exactly the host itself and every parent domain down to the registrable domain, and the entity forms with the public suffix removed plus the public suffix itself; all slicing in bounds",
-    level_note="partial: only the host -> lookup-hash mechanism; the per-host merge and exception pruning in cosmetic_filter_cache.rs are not under contract",
+    level_text="Verus proves, for all strings, that the lookup hashes of a page host are exactly the host itself and every parent domain down to the registrable domain, and the entity forms with the public suffix removed plus the public suffix itself; "
+               "and, for every rule database and host, that hostname_cosmetic_resources returns exactly: hide selectors filed under some lookup hash minus those unhidden under any lookup hash (plus the unscoped misc generic selectors minus the unhidden ones unless generichide), "
+               "procedural/action filters minus their exceptions, every unhidden selector as exceptions, and the scriptlet injections requested under some lookup hash minus identical exceptions (none under a blanket exception)",
+    level_note="which bin a rule is stored in (store_rule) and class/id lookup are not under contract",
     design_ref="DESIGN.md section 4, C16",
 )
 
